@@ -80,6 +80,61 @@ func Open(dir string, n int, networkID uint32) (*Chain, error) {
 	return c, nil
 }
 
+// Restart closes the ledger cleanly and starts it again on the same directory (node restart).
+func (c *Chain) Restart() error {
+	c.Store.Close()
+	SetGlobals(c.NetworkID, c.VBFT)
+	ldg, err := ledger.NewLedger(c.Dir)
+	if err != nil {
+		return err
+	}
+	c.Ledger = ldg
+	c.Store = ldg.GetStore().(*ledgerstore.LedgerStoreImp)
+	return ldg.Init(pubs(c.Vals), c.Genesis)
+}
+
+// OpenAfterInterruptedGenesis models a first start that stops at the named point while the genesis block is being
+// persisted (e.g. "genesis-before-version": genesis fully committed, version marker not yet written), followed
+// by a normal start on the same directory.
+func OpenAfterInterruptedGenesis(dir string, n int, networkID uint32, point string) (*Chain, error) {
+	vals := world.Accts(0, n)
+	cfg := world.VBFTConfigFor(vals, 60000)
+	SetGlobals(networkID, cfg)
+	gb, err := genesis.BuildGenesisBlock(pubs(vals), config.DefConfig.Genesis)
+	if err != nil {
+		return nil, err
+	}
+	ldg, err := ledger.NewLedger(dir)
+	if err != nil {
+		return nil, err
+	}
+	crashed := false
+	func() {
+		defer func() {
+			if r := recover(); r != nil {
+				if s, ok := r.(string); ok && s == "lworld-crash" {
+					crashed = true
+					return
+				}
+				panic(r)
+			}
+		}()
+		ledgerstore.VerifCrashHook = func(p string) {
+			if p == point {
+				ledgerstore.VerifCrashHook = nil
+				panic("lworld-crash")
+			}
+		}
+		defer func() { ledgerstore.VerifCrashHook = nil }()
+		err = ldg.Init(pubs(vals), gb)
+	}()
+	ldg.GetStore().Close()
+	if !crashed {
+		return nil, fmt.Errorf("genesis crash point %s not reached (init err %v)", point, err)
+	}
+	return Open(dir, n, networkID)
+}
+
 // Prepare sets the globals and builds the genesis block for validators Acct(0..n-1) without
 // touching any store (crash checks open the store themselves so they keep the handle).
 func Prepare(n int, networkID uint32) (vals []*account.Account, gb *types.Block, bookkeepers []keypair.PublicKey) {
